@@ -257,6 +257,6 @@ pub fn c03(tier: Tier, seed: u64) -> Verdict {
             (Profile::base(), n / 2),
         ],
         |c| c.tags.contains("shared_block_freed"),
-        "histories incl. failing (giant sizes) and panicking (callbacks) operations, plus histories re-run with every allocator request failing in turn and with callbacks panicking at every position (error and unwind paths); non-trivial = a heap block reached reference count >= 2 and was freed before the end; distinct history digests",
+        "the whole check runs twice: with an engine built without debug assertions (what the crate's debug_assert!s would stop is then seen by the shadow heap as the out-of-bounds access it is in a release build; counter noassert_build_evaluations) and with debug assertions; each pass: the operation catalogue (every operation x 9 storage states, incl. heap buffers below 16 bytes), histories incl. failing (giant sizes) and panicking (callbacks) operations and a second thread acting at the crate's hook events, plus histories re-run with every allocator request failing in turn and with callbacks panicking at every position (error and unwind paths); non-trivial = a heap block reached reference count >= 2 and was freed before the end; distinct history digests",
     )
 }
